@@ -861,6 +861,16 @@ private:"""),
          old="    values.tensor(1).indexed(samples, selected.tensor(1));", new="    values.tensor(0).indexed(samples, selected.tensor(1));"),
     dict(property="C13", name="store-validation-errors-from-loss-row", rule="R-C13-8", file="src/machine/result.cpp",
          old="    store_stats(valid_errors_losses.tensor(0), m_values.tensor(trial, fold, 1, 0));", new="    store_stats(valid_errors_losses.tensor(1), m_values.tensor(trial, fold, 1, 0));"),
+    dict(property="C08", name="drop-writes-shuffle-flag", rule="R-C08-10", file="src/generator.cpp",
+         old="    m_feature_infos(feature) = 0x01;", new="    m_feature_infos(feature) = 0x02;"),
+    dict(property="C08", name="shuffle-permutation-stored-under-first-feature", rule="R-C08-10", file="src/generator.cpp",
+         old="    m_feature_shuffles[feature] = shuffled;", new="    m_feature_shuffles[0] = shuffled;"),
+    dict(property="C08", name="shuffled-samples-by-position", rule="R-C08-10", file="src/generator.cpp",
+         old="        shuffled(i) = shuffled_all_samples(samples(i));", new="        shuffled(i) = shuffled_all_samples(i);"),
+    dict(property="C08", name="unshuffle-keeps-flags", rule="R-C08-10", file="src/generator.cpp",
+         old="    m_feature_infos.array() = 0x00;\n    m_feature_shuffles.clear();", new="    m_feature_shuffles.clear();"),
+    dict(property="C08", name="iterator-ignores-permutation", rule="R-C08-10", file="include/nano/datasource/iterator.h", tu="src/generator.cpp",
+         old="            return m_shuffled_all_samples(m_samples(m_index));", new="            return m_samples(m_index);"),
     # ---- C10
     dict(property="C10", name="accumulator-r1-sign", rule="R-C10-1", file="include/nano/wlearner/accumulator.h", tu="src/wlearner/accumulator.cpp",
          old="        r1(bin) -= vgrad;", new="        r1(bin) += vgrad;"),
